@@ -22,7 +22,7 @@ RULE_TEXT = ('runs = seeded random: workload A = (text over an alphabet with 2-/
              'text from literal / file / program). Non-trivial = at least two value-returning accesses (A) or a complete '
              'family (B) were compared; distinct = (workload, source kind, transformer chain, access sequence, buffer '
              'class relative to the text length, character classes present).')
-REACH_PROBES = ['C_one_transformer_many_texts', 'C_one_equals_matcher_many_texts', 'B_actual_from_a_program_that_varies', 'literal_as_here_document', 'A_literal', 'A_file', 'A_program', 'A_varying_program', 'A_freeze_then_access', 'A_access_then_freeze',
+REACH_PROBES = ['C_one_transformer_many_texts', 'A_cr_put_into_a_text_held_in_memory', 'C_one_equals_matcher_many_texts', 'B_actual_from_a_program_that_varies', 'literal_as_here_document', 'A_literal', 'A_file', 'A_program', 'A_varying_program', 'A_freeze_then_access', 'A_access_then_freeze',
                 'A_partial_lines', 'A_text_longer_than_buffer', 'A_text_fits_buffer',
                 'A_multibyte', 'A_cr', 'A_unicode_line_separators', 'A_no_final_newline', 'A_empty_text',
                 'A_family_line_based', 'A_family_cached', 'A_run_transformer', 'A_write_to_spooled', 'A_as_file',
@@ -81,11 +81,16 @@ def ref_lines(t):
     return out
 
 
+CR_IN_MEMORY = ('replace c \'\\r\'', 'line')  # puts a CR into a text that is held in memory (variant cr_in_memory of workload A)
+
+
 def translate(t):
     return t.replace('\r\n', '\n').replace('\r', '\n')
 
 
 def apply_transformer(tid, t):
+    if tid == 'replace_c_cr':
+        return t.replace('c', '\r')
     if tid in ('identity', 'replace_none', 'filter_all', 'filter_all_contents', 'filter_nums_all', 'run_cat',
                'run_cat_ignore', 'replace_dirs'):
         return t
@@ -211,7 +216,27 @@ def _apply_chain(chain, t):
     return t
 
 
+def plan_a_cr_in_memory(seed, tier, g):
+    """Workload A, variant: a transformer argument puts a CR into a text that is held in memory (`replace c '\\r'`).  What such
+    a text looks like when it is read back from a file is the subject of the known finding about CR; judged here is only
+    what the statement says whatever CR means: the whole-string view is the same before and after the text has been consumed
+    as a file or cached, the lines are a division of that string, the file views agree with it up to new-line translation.
+    The buffer is large (the cached text stays in memory)."""
+    T = ''.join(g.choice(['a', 'b', 'c', 'c', ' ', '\n', '.']) for _ in range(g.choice([1, 3, 8, 20, 40])))
+    kind = g.choice(['lit', 'file', 'prog'])
+    chain = ([g.choice(['identity', 'upper', 'replace_ab', 'filter_all'])] if g.random() < 0.4 else []) + ['replace_c_cr']
+    ops = []
+    for _ in range(g.randint(3, 9)):
+        op = g.choice(['str', 'str', 'lines', 'lines', 'file', 'file', 'write_file', 'freeze', 'refetch'])
+        ops.append([op])
+    return {'format': 1, 'property': PROPERTY, 'engine': 'c14', 'run_seed': seed, 'tier': tier, 'workload': 'A',
+            'knobs': {'mem_buff_size': 8192}, 'entry': 'object', 'T': T, 'kind': kind, 'chain': chain, 'ops': ops,
+            'classes': [], 'sweep': False, 'cr_in_memory': True}
+
+
 def plan_a(seed, tier, g):
+    if kernel.stream(seed, 'a-variant').random() < 0.06:
+        return plan_a_cr_in_memory(seed, tier, g)
     knob = g.choice(KNOBS)
     classes = g.choice([[], [], ['multi'], ['seps'], ['cr'], ['multi', 'seps'], ['multi', 'cr'], ['multi', 'seps', 'cr']])
     kind = g.choice(['lit', 'file', 'file', 'prog', 'prog', 'varying'])
@@ -328,7 +353,7 @@ def _syntax_a(plan):
     if chain:
         parts = []
         for c in chain:
-            syn = TRANSFORMERS[c][0]
+            syn = TRANSFORMERS[c][0] if c != 'replace_c_cr' else CR_IN_MEMORY[0]
             parts.append(syn + ('\n' if syn.startswith('run') or syn.startswith('filter -line-nums') else ''))
         syntax += ' -transformed-by ( ' + ' | '.join(parts) + ' )'
     return syntax
@@ -491,6 +516,8 @@ def _probes_a(plan, hist):
     pr = {}
     kind = plan['kind']
     pr[{'lit': 'A_literal', 'file': 'A_file', 'prog': 'A_program', 'varying': 'A_varying_program'}[kind]] = 1
+    if plan.get('cr_in_memory'):
+        pr['A_cr_put_into_a_text_held_in_memory'] = 1
     if plan.get('lit_form') == 'heredoc' and heredoc_able(plan['T']) and not plan['chain']:
         pr['literal_as_here_document'] = 1
     ops = [o[0] for o in plan['ops']]
@@ -517,7 +544,7 @@ def _probes_a(plan, hist):
         pr['A_no_final_newline'] = 1
     if T == '':
         pr['A_empty_text'] = 1
-    fams = {TRANSFORMERS[c][1] for c in plan['chain']}
+    fams = {TRANSFORMERS[c][1] if c != 'replace_c_cr' else 'line' for c in plan['chain']}
     if 'line' in fams:
         pr['A_family_line_based'] = 1
     if 'cached' in fams:
@@ -759,6 +786,25 @@ def oracle(plan, hist):
     info = hist['info']
     if info['parse_error']:
         raise kernel.HarnessError('C14-A generated syntax that does not parse: %r: %s' % (hist['syntax'], info['parse_error']))
+    if plan.get('cr_in_memory'):
+        S = None
+        for o in hist['obs']:
+            if o['op'] in ('freeze', 'ext'):
+                continue
+            if 'exc' in o:
+                bad('A.access_raises', 'a value', o['exc'], op=o['op'], i=o['i'])
+                continue
+            v, op = o['v'], o['op']
+            if op == 'str':
+                if S is None:
+                    S = v
+                elif v != S:
+                    bad('A.whole_string_is_the_same_before_and_after_other_accesses', S, v, op=op, i=o['i'])
+            elif S is not None and op == 'lines' and ''.join(v) != S:
+                bad('A.lines_are_a_division_of_the_whole_string', S, v, op=op, i=o['i'])
+            elif S is not None and op in ('file', 'write_file', 'write_spooled') and translate(v) != translate(S):
+                bad('A.file_view_agrees_up_to_new_line_translation', translate(S), v, op=op, i=o['i'])
+        return V
     kind = plan['kind']
     n_inv = max(hist['n_p1'], 1)
     cands = [expected_a(plan, n) for n in range(1, n_inv + 1)] if kind == 'varying' else [expected_a(plan)]
